@@ -95,3 +95,6 @@ pub proof fn lemma_le64_roundtrip(x: u64)
 #[verifier::external_type_specification]
 #[verifier::external_body]
 pub struct ExIoError(std::io::Error);
+//@trusted u8_from_bool: u8::from(bool) is 1 for true and 0 for false (std)
+pub assume_specification [<u8 as core::convert::From<bool>>::from] (b: bool) -> (r: u8)
+    ensures r == (if b { 1u8 } else { 0u8 });
